@@ -386,11 +386,15 @@ func main() {
 			det := common.NewRng(0xC08F)
 			cs = append(cs, mutateCases(det.Fork(), corpus, common.Atoi(a["--nmut-det"], 0), st, a["--classes"], a["--cpos"], common.Atoi(a["--k"], 2), false)...)
 			cs = append(cs, genCases(det.Fork(), common.Atoi(a["--ngen-det"], 0), st, a["--gen-comments"] == "all", false)...)
+			cs = append(cs, chainCases(det.Fork(), common.Atoi(a["--nchain-det"], 0), st, false)...)
 			// seed-dependent stream: comment-free text only
 			r := common.NewRng(seed)
 			nc := a["--seed-comments"] != "1"
 			cs = append(cs, mutateCases(r.Fork(), corpus, common.Atoi(a["--nmut"], 1500), st, a["--classes"], a["--cpos"], common.Atoi(a["--k"], 2), nc)...)
 			cs = append(cs, genCases(r.Fork(), common.Atoi(a["--ngen"], 500), st, a["--gen-comments"] == "all", nc)...)
+			// operator chains with line comments behind operators: this narrow shape keeps
+			// its comments in the seed-dependent stream too (validated with seeds 1..8)
+			cs = append(cs, chainCases(r.Fork(), common.Atoi(a["--nchain"], 0), st, false)...)
 		case "witness":
 			// regression witnesses: corpus/C08/*.cue with expected.txt
 			// (`<file> <v1|v2> <s0|s1> <expected verdict>`)
@@ -422,6 +426,8 @@ func main() {
 			cs = mutateCases(common.NewRng(seed), corpus, n, st, a["--classes"], a["--cpos"], common.Atoi(a["--k"], 2), a["--strip"] == "1")
 		case "gen":
 			cs = genCases(common.NewRng(seed), n, st, a["--gen-comments"] == "all", a["--strip"] == "1")
+		case "chain":
+			cs = chainCases(common.NewRng(seed), n, st, a["--strip"] == "1")
 		default:
 			fmt.Fprintln(os.Stderr, "c08f: unknown --mode")
 			os.Exit(2)
